@@ -480,6 +480,7 @@ type FnContract struct {
 	PureHeap    bool
 	NoPanic     bool
 	NoPanicOwn  bool // safety obligations for the function's own instructions only; callee panics are assumptions
+	Sweep       bool // implicit contract created by the no-panic sweep
 	Loops       map[int]*LoopSpec
 	CallAsserts []CallAssert
 	Asserts     []CallAssert // reserved
